@@ -434,3 +434,7 @@ mod tests {
         assert_eq!(builder.finish(), None);
     }
 }
+
+#[cfg(kani)]
+#[path = "/verif/kani/arrow-buffer/builder/null.rs"]
+mod verif_kani;
